@@ -37,6 +37,7 @@ const (
 	KDoctype
 	KStmt // `- x := expr` style statement without block
 	KRubyComment
+	KRaw // verbatim lines (fault injection): Lines of Code, each prefixed with the current indentation unless RawAbs
 )
 
 // Part of a text line.
@@ -107,6 +108,8 @@ type Node struct {
 	Callee string
 	// stmt
 	Code string
+	// raw
+	RawAbs bool
 }
 
 type Frag struct {
@@ -462,6 +465,14 @@ func (p *Printer) node(n *Node, indent int) {
 	case KChildren:
 		p.feat("children")
 		p.w(tabs + "= @children\n")
+	case KRaw:
+		for _, l := range strings.Split(n.Code, "\n") {
+			if n.RawAbs {
+				p.w(l + "\n")
+			} else {
+				p.w(tabs + l + "\n")
+			}
+		}
 	}
 }
 
